@@ -135,6 +135,28 @@ def require_clean(res, what):
         raise MachineryError(f"TLC failed in {what} (rc={res.rc}):\n{tail}")
 
 
+def simulate_many(module, cfg, *, runs, num, depth, seed, timeout=3600):
+    """Random behaviours beyond the exhaustive bounds: several TLC simulation runs
+    (-simulate num=.. -depth .. -seed ..) with seeds derived from the check's seed.
+    Returns (distinct printed JSON values, states generated)."""
+    seen, out, states = set(), [], 0
+
+    def one(i):
+        return run_tlc(module, cfg, workers=1, simulate=f"num={num}", depth=depth,
+                       seed=seed * 1000 + i + 1, timeout=timeout, heap="2g")
+
+    with cf.ThreadPoolExecutor(max_workers=min(runs, 8)) as ex:
+        for r in ex.map(one, range(runs)):
+            require_clean(r, f"simulation of {module}")
+            states += r.generated
+            for p in r.printed():
+                k = json.dumps(p, sort_keys=True)
+                if k not in seen:
+                    seen.add(k)
+                    out.append(p)
+    return out, states
+
+
 # --------------------------------------------------------------- sharding
 def write_shards(records, dirpath, prefix, shard_size=20000):
     dirpath = Path(dirpath)
